@@ -91,7 +91,15 @@ package transport_controller
 
 // flushEstablishedLink (lock held by the caller): removes exactly el's entry from links; every other key is untouched;
 // el is listed under no peer afterwards; (b)-(d) are kept (the back reference (b) is required only of the other links).
+// C06 "a lost link is closed": every flush hands the link to a goroutine that closes it (the Close may
+// block, so it is not called under the lock).
+//@ func (*Controller).flushEstablishedLink$2
+//@   noframe
+//@   nosweep nil-deref
+//@   assert at call! invoke.Close: recv == el.lnk
 //@ func (*Controller).flushEstablishedLink
+//@   assert at call! go.flushEstablishedLink$2: true
+//@   assert at exit: called("go.flushEstablishedLink$2")
 //@   requires held(c.bcast) && el != nil && structobj(el) && el.lnk != nil && el.di != nil && c.links != nil && c.linksByPeerID != nil
 //@   requires (el.lnk.GetUUID() in c.links) ==> c.links[el.lnk.GetUUID()] == el
 //@   requires forall p string, i int trigger c.linksByPeerID[p][i] :: (p in c.linksByPeerID) && 0 <= i && i < len(c.linksByPeerID[p]) ==> byPeerElem(c, p, i) && (c.linksByPeerID[p][i] != el ==> byPeerBack(c, p, i))
